@@ -839,6 +839,23 @@ func simplifyLambda(expression b6.Expression, functions SymbolArgCounts) b6.Expr
 			}
 			i++
 		}
+		// The reduction drops the first i parameters, which is only valid if
+		// they are all of the lambda's parameters, and neither the function
+		// nor the remaining arguments use them: '{a -> add a a}' isn't 'add a'.
+		if i > 0 && i == len(lambda.Args) {
+			for _, parameter := range lambda.Args {
+				if occursFree(call.Function, parameter) {
+					i = 0
+				}
+				for _, arg := range call.Args[i:] {
+					if occursFree(arg, parameter) {
+						i = 0
+					}
+				}
+			}
+		} else {
+			i = 0
+		}
 		if i > 0 {
 			if i == len(call.Args) {
 				return Simplify(call.Function, functions)
@@ -852,6 +869,32 @@ func simplifyLambda(expression b6.Expression, functions SymbolArgCounts) b6.Expr
 		}
 	}
 	return expression
+}
+
+// occursFree returns true if the symbol name is used in e, other than where a
+// lambda within e rebinds it.
+func occursFree(e b6.Expression, name string) bool {
+	switch e := e.AnyExpression.(type) {
+	case b6.SymbolExpression:
+		return string(e) == name
+	case b6.CallExpression:
+		if occursFree(e.Function, name) {
+			return true
+		}
+		for _, arg := range e.Args {
+			if occursFree(arg, name) {
+				return true
+			}
+		}
+	case b6.LambdaExpression:
+		for _, arg := range e.Args {
+			if arg == name {
+				return false
+			}
+		}
+		return occursFree(e.Expression, name)
+	}
+	return false
 }
 
 func simplifyQuery(query b6.Query) b6.Query {
